@@ -140,6 +140,30 @@ class LibDriver:
                                     before={k: v for k, v in before.items() if after.get(k) != v},
                                     after={k: v for k, v in after.items() if before.get(k) != v})
 
+    def add_unusable(self, rng):
+        """A name the library cannot even look at: a str-subclass instance that is unhashable (it defines __eq__ only) or whose
+        __hash__ raises (an ordinary error or a KeyboardInterrupt-like).  Whatever comes out of add_tag, the library is as before."""
+        from vlib import faults
+        kind = rng.choice(['unhashable', 'hash_raises', 'hash_interrupts'])
+        if kind == 'unhashable':
+            cls = type('EqOnly', (str,), {'__eq__': lambda a, b: str.__eq__(a, b)})
+        else:
+            exc = faults.Boom if kind == 'hash_raises' else faults.Interrupt
+
+            def _h(self_, exc=exc):
+                raise exc('hashing this name fails')
+            cls = type('BadHash', (str,), {'__hash__': _h})
+        name = cls(f'UNUSABLE_{rng.randint(0, 999)}')
+        before = self.observe()
+        _, err = faults.attempt(self._add, name)
+        self.ctx.count('unusable_names_tried')
+        after = self.observe()
+        if err is not None and after != before:
+            raise CaseViolation(f'{self.label}: add_tag of a name that cannot be hashed failed ({type(err).__name__}) but changed the library',
+                                before={k: v for k, v in before.items() if after.get(k) != v}, after={k: v for k, v in after.items() if before.get(k) != v})
+        if err is None:
+            self.ref.append(name)        # (a library that copes with such a name has simply accepted one more tag)
+
     def full_check(self, rng):
         ctx = self.ctx
         ctx.count('full_checks')
